@@ -5,36 +5,135 @@ import (
 	"strings"
 )
 
-// Source units. Cold cases (g.hot == false) are built to pass analysis and to evaluate: declarations are
-// well formed, temporal predicates are used with annotations and others without, bounds are well-formed type
-// expressions and the facts are values of them, rule heads use bound variables. Hot cases sprinkle deliberately
-// invalid choices over the same construction.
+// Source units. Cold cases (g.hot == false) are built to pass analysis with bounds checking and to evaluate. The
+// construction is type directed: every predicate has a model type per column (what the bounds checker will see
+// there: the declared bound, /any for a declaration without bounds, for an undeclared predicate what it infers
+// from the facts and rule heads), facts are members of the declared row whose inferred type conforms to it, rule
+// bodies track a type per variable and choose variables, constants, built-in predicates and functions by the
+// types at hand, heads are filled with terms of the column types (see genrule_test.go). Temporal predicates are
+// used with annotations and others without, recursion through temporal predicates stays within one predicate,
+// negation and aggregation look at lower strata only. Warm cases take one or two deliberately invalid choices on
+// top of that, hot cases many (g.bad), and half of the hot cases choose variables and functions without looking
+// at types at all (ruleGen.loose).
 
 // ty is a type expression.
 type ty struct {
-	kind string // base, list, pair, map, option, tuple, struct, union, singleton
+	kind string // base, list, pair, map, option, tuple, struct, union, singleton, tagged
 	lit  string // base: the name constant; singleton: the constant
 	args []*ty
-	keys []string // struct: field names
+	keys []string // struct: field names; tagged: variant tags
 	opt  []bool   // struct: optional field
+	// dot: written in the dot syntax (.List</number>) and not as fn:List(/number). The parser gives the type
+	// constructor of the dot syntax the arity -1, and the unifier that types function applications compares
+	// constructors with their arity: a variable of type .List<T> is no argument for fn:list:len.
+	dot bool
 }
 
 var baseTypes = []string{"/any", "/number", "/string", "/name", "/float64", "/bytes", "/number", "/string", "/foo", "/foo/bar", "/time", "/duration"}
 
+func bt(lit string) *ty { return &ty{kind: "base", lit: lit} }
+
+var (
+	tyAny      = bt("/any")
+	tyNumber   = bt("/number")
+	tyString   = bt("/string")
+	tyName     = bt("/name")
+	tyFloat    = bt("/float64")
+	tyTime     = bt("/time")
+	tyDuration = bt("/duration")
+)
+
+func (t *ty) isBase(lit string) bool { return t != nil && t.kind == "base" && t.lit == lit }
+
+// isPrefixName: a name constant used as a type (its members are the names below it).
+func (t *ty) isPrefixName() bool {
+	if t == nil || t.kind != "base" {
+		return false
+	}
+	for _, b := range []string{"/any", "/number", "/string", "/name", "/float64", "/bytes", "/time", "/duration", "/bot"} {
+		if t.lit == b {
+			return false
+		}
+	}
+	return true
+}
+
+func tyEq(a, b *ty) bool {
+	if a == b {
+		return true
+	}
+	if a == nil || b == nil || a.kind != b.kind || a.lit != b.lit || len(a.args) != len(b.args) || len(a.keys) != len(b.keys) {
+		return false
+	}
+	for i := range a.args {
+		if !tyEq(a.args[i], b.args[i]) {
+			return false
+		}
+	}
+	for i := range a.keys {
+		if a.keys[i] != b.keys[i] {
+			return false
+		}
+	}
+	for i := range a.opt {
+		if i < len(b.opt) && a.opt[i] != b.opt[i] {
+			return false
+		}
+	}
+	return true
+}
+
+// tySub: every member of a is a member of b, as far as the bounds checker can tell (a deliberately small part of
+// its conformance relation: equal types, /any, name prefix types below each other and below /name, unions).
+func tySub(a, b *ty) bool {
+	if a == nil || b == nil {
+		return false
+	}
+	if tyEq(a, b) || b.isBase("/any") {
+		return true
+	}
+	if a.kind == "union" {
+		for _, m := range a.args {
+			if !tySub(m, b) {
+				return false
+			}
+		}
+		return len(a.args) > 0
+	}
+	if b.kind == "union" {
+		for _, m := range b.args {
+			if tySub(a, m) {
+				return true
+			}
+		}
+		return false
+	}
+	if b.kind == "base" && (a.isPrefixName() || a.kind == "singleton") {
+		return b.lit == "/name" || strings.HasPrefix(a.lit, b.lit+"/")
+	}
+	return false
+}
+
 func (x g) genTy(depth int) *ty {
+	t := x.genTy1(depth)
+	t.dot = x.chance(40)
+	return t
+}
+
+func (x g) genTy1(depth int) *ty {
 	k := x.n(0, 16)
 	if depth <= 0 || k <= 7 {
 		return &ty{kind: "base", lit: x.pick(baseTypes)}
 	}
-	if k == 15 && x.hot {
-		k = 16
+	if k == 15 && x.hot || x.n(0, 999) >= 870 {
+		k = 16 // tagged unions: the type with the most special cases in the checker gets a share of its own
 	}
 	switch k {
 	case 16:
 		// .TaggedUnion</kind, /a : .Struct<...>, /b : .Struct<...>>
 		t := &ty{kind: "tagged"}
 		for i, n := 0, x.n(1, 3); i < n; i++ {
-			v := &ty{kind: "struct"}
+			v := &ty{kind: "struct", dot: x.chance(40)}
 			for j, m := 0, x.n(0, 2); j < m; j++ {
 				v.keys = append(v.keys, []string{"/x", "/y"}[j])
 				v.args = append(v.args, x.genTy(0))
@@ -80,7 +179,11 @@ func (x g) genTy(depth int) *ty {
 
 // text prints the type, choosing between the fn: and the dot syntax.
 func (x g) tyText(t *ty) string {
-	dot := x.chance(40)
+	defer x.in(phaseTypes)()
+	dot := t.dot
+	if x.hot && x.chance(20) {
+		dot = !dot
+	}
 	join := func(ts []*ty) string {
 		parts := make([]string, len(ts))
 		for i, a := range ts {
@@ -160,8 +263,66 @@ func (x g) tyText(t *ty) string {
 	}
 }
 
-// valueOf returns the text of a constant of the type (small domains, so that joins hit).
-func (x g) valueOf(t *ty) string {
+// Members of a type whose *inferred* type conforms to it. The bounds checker infers a type for every constant of a
+// fact (boundOfArg) and compares it with the declared row. It has no type for byte strings, pairs and tuples
+// (/any), it takes a name constant for /name or a name prefix type, never for a singleton, and inside a list, map
+// or struct type it compares without looking into unions, tagged unions and singletons; fn:some cannot be
+// evaluated in a fact. So some types have no fact that passes, and some only the empty list.
+
+// keyOK: the type can be the key type of a map with entries (key types are compared the other way round).
+func keyOK(t *ty) bool {
+	return t.kind == "base" && t.lit != "/any" && t.lit != "/bytes"
+}
+
+// elemOK: a member of t can stand inside a list, map or struct.
+func elemOK(t *ty) bool {
+	switch t.kind {
+	case "base":
+		return t.lit != "/bytes"
+	case "list":
+		return true // the empty list at least
+	case "map":
+		return keyOK(t.args[0]) && elemOK(t.args[1])
+	case "struct":
+		for i, a := range t.args {
+			if !t.opt[i] && !elemOK(a) {
+				return false
+			}
+		}
+		return true
+	default:
+		return false
+	}
+}
+
+// factOK: a fact can have a member of t in a column declared with t.
+func factOK(t *ty) bool {
+	switch t.kind {
+	case "union":
+		for _, a := range t.args {
+			if factOK(a) {
+				return true
+			}
+		}
+		return false
+	case "tagged":
+		for _, v := range t.args {
+			if elemOK(v) {
+				return true
+			}
+		}
+		return false
+	default:
+		return elemOK(t)
+	}
+}
+
+// valueOf returns the text of a constant of the type (small domains, so that joins hit). Where the type has
+// members that pass the bounds check (factOK), the constant is one of them.
+func (x g) valueOf(t *ty) string { return x.value(t, false) }
+
+// value: key says that the constant is the key of a map (the inferred key type has to be the declared one).
+func (x g) value(t *ty, key bool) string {
 	if t == nil {
 		return x.pick([]string{"0", "1", "2", "3", "/a", "/b", `"a"`, `"b"`})
 	}
@@ -173,31 +334,40 @@ func (x g) valueOf(t *ty) string {
 		case "/string":
 			return x.pick([]string{`"a"`, `"b"`, `"c"`, `""`})
 		case "/name":
+			if key {
+				return x.pick([]string{"/a", "/b", "/c"}) // /foo/x would be a /foo where some declaration mentions /foo
+			}
 			return x.pick([]string{"/a", "/b", "/c", "/foo/x"})
 		case "/float64":
 			return x.pick([]string{"1.5", "0.0", "-3.25", "2.0"})
 		case "/bytes":
 			return x.pick([]string{`b"a"`, `b"\x00\xff"`, `b""`})
 		case "/foo":
+			if key {
+				return x.pick([]string{"/foo/x", "/foo/y"})
+			}
 			return x.pick([]string{"/foo/x", "/foo/y", "/foo/bar/z"})
 		case "/foo/bar":
 			return x.pick([]string{"/foo/bar/z", "/foo/bar/w"})
 		case "/time":
 			return x.pick([]string{`fn:time:parse_rfc3339("2024-01-01T00:00:00Z")`, "fn:time:from_unix_nanos(0)", "fn:time:from_unix_nanos(1700000000000000000)"})
 		case "/duration":
-			return x.pick([]string{`fn:duration:parse("1h")`, "fn:duration:from_seconds(5)", "fn:duration:from_nanos(0)"})
+			return x.pick([]string{`fn:duration:parse("1h")`, "fn:duration:from_seconds(5.0)", "fn:duration:from_nanos(0)"})
 		default:
 			return x.pick([]string{"0", "1", "/a", `"a"`, "1.5", "[1]", "{/a: 1}"})
 		}
 	case "list":
-		return "[" + x.list(0, 0, 2, func(int) string { return x.valueOf(t.args[0]) }) + "]"
+		if !elemOK(t.args[0]) && !x.hot {
+			return "[]"
+		}
+		return x.bracket(x.list(0, 0, 2, func(int) string { return x.value(t.args[0], false) }))
 	case "pair":
 		return "fn:pair(" + x.valueOf(t.args[0]) + ", " + x.valueOf(t.args[1]) + ")"
 	case "map":
-		if x.chance(20) {
-			return "fn:map()"
+		if x.hot && x.chance(20) || x.bad(5) {
+			return "fn:map()" // the bounds checker has Map(Union(), Union()) for it, which conforms to nothing
 		}
-		return "[" + x.valueOf(t.args[0]) + ": " + x.valueOf(t.args[1]) + "]"
+		return x.bracket(x.value(t.args[0], true) + ": " + x.valueOf(t.args[1]))
 	case "option":
 		return "fn:some(" + x.valueOf(t.args[0]) + ")"
 	case "tuple":
@@ -207,9 +377,27 @@ func (x g) valueOf(t *ty) string {
 		}
 		return "fn:tuple(" + strings.Join(parts, ", ") + ")"
 	case "union":
-		return x.valueOf(t.args[x.n(0, len(t.args)-1)])
+		var ok []*ty
+		for _, a := range t.args {
+			if factOK(a) {
+				ok = append(ok, a)
+			}
+		}
+		if len(ok) == 0 || x.hot {
+			ok = t.args
+		}
+		return x.valueOf(ok[x.n(0, len(ok)-1)])
 	case "tagged":
+		var ok []int
+		for i, v := range t.args {
+			if elemOK(v) {
+				ok = append(ok, i)
+			}
+		}
 		i := x.n(0, len(t.args)-1)
+		if len(ok) > 0 && !x.hot {
+			i = ok[x.n(0, len(ok)-1)]
+		}
 		parts := []string{"/kind: " + t.keys[i]}
 		for j, a := range t.args[i].args {
 			parts = append(parts, t.args[i].keys[j]+": "+x.valueOf(a))
@@ -220,13 +408,21 @@ func (x g) valueOf(t *ty) string {
 	default:
 		var parts []string
 		for i, a := range t.args {
-			if t.opt[i] && x.chance(30) {
+			if t.opt[i] && (x.chance(30) || !elemOK(a) && !x.hot) {
 				continue
 			}
 			parts = append(parts, t.keys[i]+": "+x.valueOf(a))
 		}
 		return "{" + strings.Join(parts, ", ") + "}"
 	}
+}
+
+// bracket writes a list or map literal. "[-1" would be read as the box-minus operator.
+func (x g) bracket(inner string) string {
+	if strings.HasPrefix(inner, "-") && !x.bad(30) {
+		return "[ " + inner + "]"
+	}
+	return "[" + inner + "]"
 }
 
 // pred is a predicate of the generated program.
@@ -237,7 +433,30 @@ type pred struct {
 	temporal bool
 	declared bool
 	deferred bool
-	cols     []*ty // column types (nil entries: no bound)
+	external bool
+	// synthetic: the declaration carries the descriptor synthetic(); the bounds checker then ignores its bounds
+	// and infers the types from facts and rules, as for an undeclared predicate
+	synthetic bool
+	bounds    bool   // the declaration has a bound row (cols)
+	cols      []*ty  // model type per column: what the bounds checker sees there (never nil)
+	alt       []*ty  // second bound row of the declaration (nil: none)
+	mode      string // declared mode, one of + - ? per column ("": none)
+	reflects  string // name prefix of a reflects() descriptor ("": none)
+	index     int    // position among the intensional predicates
+	fwd       []int  // intensional predicates after this one that its rules may use
+	top       int    // highest intensional predicate that rules may reach from this one (recursion goes through it)
+}
+
+// byDecl: the bounds checker takes the column types from the declaration (else it infers them).
+func (p pred) byDecl() bool { return p.declared && !p.synthetic }
+
+// unsure: the bounds checker may see other types than cols[col] in this column (several rows, or facts of mixed
+// types in a predicate whose types are inferred).
+func (p pred) unsure(col int) bool {
+	if p.byDecl() && p.alt != nil && !tyEq(p.alt[col], p.cols[col]) {
+		return true
+	}
+	return !p.byDecl() && p.cols[col].isBase("/any")
 }
 
 func (x g) bound() string {
@@ -280,6 +499,9 @@ func (x g) factAnnotation() string {
 	if a[:10] > b[:10] {
 		a, b = b, a
 	}
+	if x.bad(2) {
+		a = x.pick(badStamps)
+	}
 	switch x.n(0, 9) {
 	case 0, 1, 2:
 		return "@[" + a + "]"
@@ -303,11 +525,19 @@ func (x g) operator() string {
 	if x.hot {
 		return x.pick([]string{"<-", "[-", "<+", "[+"}) + "[" + x.bound() + ", " + x.bound() + "]"
 	}
+	return x.operatorOf(x.pick([]string{"<-", "[-", "<+", "[+"}))
+}
+
+func (x g) operatorOf(op string) string {
 	i, j := x.n(0, len(durations)-1), x.n(0, len(durations)-1)
 	if i > j && !strings.HasSuffix(durations[i], "d") {
 		i, j = j, i
 	}
-	return x.pick([]string{"<-", "[-", "<+", "[+"}) + "[" + durations[i] + ", " + durations[j] + "]"
+	a, b := durations[i], durations[j]
+	if x.bad(2) {
+		b = x.pick(badDurations)
+	}
+	return op + "[" + a + ", " + b + "]"
 }
 
 func (x g) atom(p pred, arg func(col int) string) string {
@@ -342,6 +572,23 @@ func (x g) modeAtom(arity int, allowed []string) string {
 	return "mode(" + strings.Join(parts, ", ") + ")"
 }
 
+// modeText prints the mode chosen for the predicate (the rules are built for it).
+func (x g) modeText(p pred) string {
+	k := len(p.mode)
+	if x.bad(15) {
+		k = x.n(0, 4)
+	}
+	parts := make([]string, k)
+	for i := range parts {
+		m := "?"
+		if i < len(p.mode) {
+			m = p.mode[i : i+1]
+		}
+		parts[i] = x.pickv([]string{`"` + m + `"`}, []string{`"x"`, `1`, `/a`, `X`, `""`})
+	}
+	return "mode(" + strings.Join(parts, ", ") + ")"
+}
+
 // descr builds the descr block of a declaration.
 func (x g) descr(p pred, preds []pred) string {
 	vars := declVars(p.arity)
@@ -353,14 +600,29 @@ func (x g) descr(p pred, preds []pred) string {
 	}
 	var atoms []string
 	if p.deferred {
-		atoms = append(atoms, "deferred()", x.modeAtom(p.arity, []string{`"+"`, `"+"`, `"-"`, `"?"`}))
+		atoms = append(atoms, "deferred()", x.modeText(p))
 	}
-	seenDoc := false
-	hasMode := p.deferred
+	if p.external {
+		// an external predicate must have exactly one mode
+		atoms = append(atoms, "external()", x.modeText(p))
+	}
+	if p.mode != "" && !p.deferred && !p.external {
+		atoms = append(atoms, x.modeText(p))
+	}
+	if p.reflects != "" {
+		atoms = append(atoms, "reflects("+p.reflects+")")
+	}
+	if p.synthetic {
+		atoms = append(atoms, "synthetic()")
+	}
+	seenDoc, seenArg := false, false
 	for i, n := 0, x.n(0, 2); i < n; i++ {
 		k := x.n(0, 13)
 		if x.hot && x.chance(25) {
 			k = x.n(14, 19)
+		}
+		if (k == 3 || k == 4 || k == 7 || k == 13) && !x.hot {
+			continue // modes, reflects() and external() are properties of the predicate (see preds)
 		}
 		switch k {
 		case 0, 1:
@@ -372,23 +634,23 @@ func (x g) descr(p pred, preds []pred) string {
 		case 2:
 			if x.hot {
 				atoms = append(atoms, `arg(`+v()+`, "an argument")`)
-			} else {
+			} else if !seenArg {
+				seenArg = true
 				for _, a := range vars {
 					atoms = append(atoms, `arg(`+a+`, "an argument")`)
 				}
 			}
-		case 3, 4:
-			if !p.deferred && !hasMode || x.hot {
-				atoms = append(atoms, x.modeAtom(p.arity, []string{`"+"`, `"-"`, `"?"`, `"?"`}))
-				hasMode = true
-			}
 		case 5:
-			atoms = append(atoms, "extensional()")
+			if !p.synthetic || x.hot { // synthetic() and extensional(): the declared bounds count again
+				atoms = append(atoms, "extensional()")
+			}
 		case 6:
-			atoms = append(atoms, "private()")
-		case 7:
-			if p.arity == 1 || x.hot {
-				atoms = append(atoms, "reflects("+x.pick([]string{"/foo", "/foo/bar", "/a"})+")")
+			dotted := false // a predicate of another package could not use a private one
+			for _, q := range preds {
+				dotted = dotted || strings.Contains(q.name, ".")
+			}
+			if !dotted || x.hot {
+				atoms = append(atoms, "private()")
 			}
 		case 8, 9:
 			if len(vars) >= 2 {
@@ -402,15 +664,18 @@ func (x g) descr(p pred, preds []pred) string {
 				}
 				atoms = append(atoms, "fundep(["+strings.Join(vars[:len(vars)-1], ", ")+"], ["+vars[len(vars)-1]+"])", "merge(["+vars[len(vars)-1]+"], "+m+")")
 			}
+		case 3, 4:
+			atoms = append(atoms, x.modeAtom(p.arity, []string{`"+"`, `"-"`, `"?"`, `"?"`}))
+		case 7:
+			atoms = append(atoms, "reflects("+x.pick([]string{"/foo", "/foo/bar", "/a"})+")")
 		case 12:
-			atoms = append(atoms, x.pick([]string{"synthetic()", `name("n")`, "unknown(1)", "foo()"}))
-		case 13:
-			if x.hot {
-				atoms = append(atoms, "external()")
-			} else if !p.idb && !p.deferred && !hasMode {
-				atoms = append(atoms, "external()", x.modeAtom(p.arity, []string{`"+"`, `"-"`, `"-"`}))
-				return "\n  descr [" + strings.Join(atoms, ", ") + "]"
+			a := x.pick([]string{"synthetic()", `name("n")`, "unknown(1)", "foo()"})
+			if a == "synthetic()" && !p.synthetic && !x.hot && !x.bad(10) {
+				a = `name("n")` // synthetic() is a property of the predicate (see preds)
 			}
+			atoms = append(atoms, a)
+		case 13:
+			atoms = append(atoms, "external()")
 		case 14:
 			atoms = append(atoms, "fundep(["+x.list(0, 0, 3, func(int) string { return v() })+"], ["+x.list(0, 0, 2, func(int) string { return v() })+"])")
 		case 15:
@@ -424,6 +689,9 @@ func (x g) descr(p pred, preds []pred) string {
 		default:
 			atoms = append(atoms, x.modeAtom(p.arity, []string{`"+"`, `"-"`, `"?"`}), x.modeAtom(p.arity, []string{`"+"`, `"-"`, `"?"`}))
 		}
+	}
+	if x.bad(3) {
+		atoms = append(atoms, x.pick([]string{"external()", "deferred()", `reflects(/foo)`, x.modeAtom(p.arity, []string{`"+"`, `"-"`, `"?"`})}))
 	}
 	if len(atoms) == 0 && x.chance(70) {
 		return ""
@@ -444,19 +712,18 @@ func (x g) decl(p pred, preds []pred) string {
 		sb.WriteString(" temporal")
 	}
 	sb.WriteString(x.descr(p, preds))
-	if p.cols != nil {
+	if p.bounds {
 		parts := make([]string, p.arity)
 		for j := range parts {
 			if x.bad(10) {
 				parts[j] = x.typeExpr(2)
-			} else if j < len(p.cols) && p.cols[j] != nil {
-				parts[j] = x.tyText(p.cols[j])
 			} else {
-				parts[j] = "/any"
+				parts[j] = x.tyText(p.cols[j])
 			}
 		}
-		// a bound may name a unary predicate ("e0"): its bounds are looked up and an inclusion constraint is added
-		if len(parts) > 0 && x.chance(6) && len(preds) > 0 {
+		// A bound may name a unary predicate ("e0"): its bounds are looked up and an inclusion constraint is added.
+		// (The declaration check of this tree rejects every such bound, so cold cases take it rarely.)
+		if len(parts) > 0 && x.chance(6) && len(preds) > 0 && (x.hot || x.warm != nil || x.chance(30)) {
 			q := preds[x.n(0, len(preds)-1)]
 			if x.hot || q.arity == 1 && q.declared && q.name != p.name {
 				parts[x.n(0, len(parts)-1)] = `"` + q.name + `"`
@@ -470,10 +737,10 @@ func (x g) decl(p pred, preds []pred) string {
 			}
 		}
 		sb.WriteString("\n  bound [" + strings.Join(parts, ", ") + "]")
-		if x.chance(12) { // a second alternative
+		if p.alt != nil { // a second alternative
 			parts2 := make([]string, p.arity)
 			for j := range parts2 {
-				parts2[j] = x.tyText(x.genTy(1))
+				parts2[j] = x.tyText(p.alt[j])
 			}
 			sb.WriteString("\n  bound [" + strings.Join(parts2, ", ") + "]")
 		}
@@ -499,18 +766,39 @@ func (x g) decl(p pred, preds []pred) string {
 	return sb.String()
 }
 
+// canFact: facts of the predicate pass the bounds check.
+func (p pred) canFact() bool {
+	if !p.byDecl() || !p.bounds {
+		return true // no declared row: whatever is inferred for the facts is the type
+	}
+	for _, c := range p.cols {
+		if !factOK(c) {
+			return false
+		}
+	}
+	return true
+}
+
 func (x g) fact(p pred) string {
 	s := x.atom(p, func(col int) string {
 		if x.bad(3) {
 			return x.term(2, nil)
 		}
-		if p.cols != nil && col < len(p.cols) && p.cols[col] != nil {
-			return x.valueOf(p.cols[col])
-		}
-		if x.chance(75) {
+		if col >= len(p.cols) { // arity mismatch
 			return x.valueOf(nil)
 		}
-		return x.constant(2)
+		c := p.cols[col]
+		if p.byDecl() && !p.bounds || !p.byDecl() && c.isBase("/any") {
+			// any constant
+			if x.chance(75) {
+				return x.valueOf(nil)
+			}
+			return x.constant(2)
+		}
+		if !p.byDecl() {
+			return x.value(c, true) // names that are /name whatever the declarations mention
+		}
+		return x.valueOf(c)
 	})
 	if p.temporal && (!x.hot || x.chance(85)) || x.bad(3) {
 		s += x.factAnnotation()
@@ -525,317 +813,221 @@ func endClause(s string) string {
 	return s + " ." // a name constant or a number would swallow the dot
 }
 
-// rule builds a rule for head predicate p; in safe mode the head variables are bound by positive body atoms.
-func (x g) rule(p pred, preds []pred) string {
-	safe := !x.hot || x.chance(60)
-	pool := []string{"X", "Y", "Z"}
-	var bound []string // variables bound so far
-	bind := func(v string) {
-		for _, b := range bound {
-			if b == v {
-				return
+// robust: the type the bounds checker infers for a fact generated from t is t, so t can be the model of a column
+// of an undeclared predicate.
+func robust(t *ty) bool {
+	switch t.kind {
+	case "base":
+		return t.lit == "/number" || t.lit == "/string" || t.lit == "/name" || t.lit == "/float64" || t.lit == "/time" || t.lit == "/duration" || t.lit == "/any"
+	case "list":
+		return robust(t.args[0]) && !t.args[0].isBase("/any")
+	case "map":
+		return keyOK(t.args[0]) && robust(t.args[0]) && robust(t.args[1]) && !t.args[1].isBase("/any")
+	case "struct":
+		for i, a := range t.args {
+			if !robust(a) || a.isBase("/any") || t.opt[i] {
+				return false
 			}
 		}
-		if v != "_" {
-			bound = append(bound, v)
-		}
+		return true
+	default:
+		return false
 	}
-	// Stratification: cold cases negate and aggregate over lower predicates only (extensional ones and
-	// intensional ones listed before the head).
-	var lower []pred
-	for _, c := range preds {
-		if c.name == p.name {
-			break
-		}
-		lower = append(lower, c)
-	}
-	for _, c := range preds {
-		if !c.idb && c.name != p.name {
-			lower = append(lower, c)
-		}
-	}
-	if len(lower) == 0 || x.hot && x.chance(50) {
-		lower = preds
-	}
-	transformKind := x.n(0, 9) // 0, 1: do-transform, 2: let-transform
-	var body []string
-	var tvars []string // interval variables bound by temporal literals
-	nb := x.n(1, 3)
-	for i := 0; i < nb; i++ {
-		q := preds[x.n(0, len(preds)-1)]
-		negate := i > 0 && x.chance(8)
-		if transformKind <= 1 || negate {
-			q = lower[x.n(0, len(lower)-1)]
-		}
-		if q.deferred && !x.hot && i == 0 {
-			// a deferred predicate wants its inputs bound: not the first literal
-			for _, c := range preds {
-				if !c.deferred {
-					q = c
-					break
-				}
-			}
-		}
-		var used []string
-		lit := x.atom(q, func(int) string {
-			if x.chance(12) {
-				return x.pick([]string{"0", "1", "2", "/a", `"a"`, "_"})
-			}
-			v := x.pick(pool)
-			if q.deferred && !x.hot && len(bound) > 0 && x.chance(70) {
-				v = x.pick(bound)
-			}
-			used = append(used, v)
-			return v
-		})
-		neg := false
-		switch {
-		case q.temporal && (!x.hot || x.chance(85)) || x.bad(5):
-			switch x.n(0, 3) {
-			case 0:
-				lit = x.operator() + " " + lit
-			case 1:
-				lit = lit + "@[T" + fmt.Sprint(i) + "]"
-				tvars = append(tvars, "T"+fmt.Sprint(i))
-			case 2:
-				lit = lit + "@[S" + fmt.Sprint(i) + ", E" + fmt.Sprint(i) + "]"
-				tvars = append(tvars, "S"+fmt.Sprint(i), "E"+fmt.Sprint(i))
-			default:
-				if x.hot {
-					lit = lit + x.annotation()
-				} else {
-					lit = lit + x.factAnnotation()
-				}
-			}
-		case negate:
-			lit = "!" + lit
-			neg = true
-		}
-		if !neg {
-			for _, v := range used {
-				bind(v)
-			}
-		}
-		body = append(body, lit)
-	}
-	bv := func() string {
-		if safe && len(bound) > 0 {
-			return x.pick(bound)
-		}
-		return x.variable()
-	}
-	// extra literals: comparisons, equalities with functions, built-in predicates
-	fresh := []string{"U", "V", "Q"}
-	ne := x.n(0, 2)
-	for i := 0; i < ne; i++ {
-		switch x.n(0, 7) {
-		case 0:
-			body = append(body, bv()+" "+x.pick([]string{"<", "<=", ">", ">=", "!=", "="})+" "+x.term(1, bound))
-		case 1, 2:
-			v := fresh[i]
-			body = append(body, v+" = "+x.fnApp(2, func(d int) string {
-				if x.chance(70) {
-					return bv()
-				}
-				return x.term(d, bound)
-			}))
-			bind(v)
-		case 3:
-			v := fresh[i]
-			body = append(body, v+" = "+x.term(2, bound))
-			bind(v)
-		case 4, 5, 6:
-			b := builtinPreds[x.n(0, len(builtinPreds)-1)]
-			ar := b.arity
-			if x.bad(12) {
-				ar = x.n(0, 4)
-			}
-			parts := make([]string, ar)
-			var outs []string
-			for j := range parts {
-				switch {
-				case j == 0:
-					parts[j] = bv()
-				case (b.name == ":match_pair" || b.name == ":match_cons" || b.name == ":match_entry" || b.name == ":match_field") && (!x.hot || x.chance(70)):
-					if (b.name == ":match_entry" || b.name == ":match_field") && j == 1 {
-						parts[j] = x.pick(names)
-					} else {
-						parts[j] = fresh[(i+j)%3] + fmt.Sprint(j)
-						outs = append(outs, parts[j])
-					}
-				default:
-					parts[j] = x.term(1, bound)
-				}
-			}
-			body = append(body, b.name+"("+strings.Join(parts, ", ")+")")
-			for _, v := range outs {
-				bind(v)
-			}
-		default:
-			q := lower[x.n(0, len(lower)-1)]
-			if x.hot || !q.temporal && !q.deferred {
-				body = append(body, "!"+x.atom(q, func(int) string { return bv() }))
-			}
-		}
-	}
-	if x.bad(4) { // shuffle one pair: built-ins before their inputs are bound
-		i, j := x.n(0, len(body)-1), x.n(0, len(body)-1)
-		body[i], body[j] = body[j], body[i]
-	}
-	// transforms
-	var transforms []string
-	headVar := bv
-	switch transformKind {
-	case 0, 1: // do-transform
-		var keyList []string
-		for i, n := 0, x.n(0, 2); i < n && i < len(bound); i++ {
-			k := bound[(i+len(bound)-1)%len(bound)]
-			if x.bad(20) {
-				k = bv()
-			}
-			dup := false
-			for _, o := range keyList {
-				dup = dup || o == k
-			}
-			if !dup || x.hot {
-				keyList = append(keyList, k)
-			}
-		}
-		keys := strings.Join(keyList, ", ")
-		r := reducers[x.n(0, len(reducers)-1)]
-		ar := r.arity
-		if ar < 0 {
-			ar = x.n(1, 2)
-		}
-		if x.bad(10) {
-			ar = x.n(0, 3)
-		}
-		parts := make([]string, ar)
-		for j := range parts {
-			parts[j] = bv()
-		}
-		tr := "do fn:group_by(" + keys + "), let R = " + r.name + "(" + strings.Join(parts, ", ") + ")"
-		if x.chance(20) {
-			tr += ", let R2 = " + x.fnApp(1, func(int) string { return "R" })
-		}
-		if x.bad(8) {
-			tr = "do " + x.fnApp(1, func(int) string { return bv() })
-		}
-		transforms = append(transforms, tr)
-		if safe {
-			cand := append([]string{"R"}, keyList...)
-			headVar = func() string { return x.pick(cand) }
-		}
-	case 2: // let-transform
-		tr := "let L = " + x.fnApp(2, func(int) string { return bv() })
-		if x.chance(30) {
-			tr += ", let L2 = " + x.fnApp(1, func(int) string { return x.pick([]string{"L", bv()}) })
-		}
-		transforms = append(transforms, tr)
-		bind("L")
-	}
-	if len(transforms) > 0 && x.bad(8) {
-		transforms = append(transforms, "let P = fn:plus(1, 2)")
-	}
-	head := x.atom(p, func(int) string {
-		if x.bad(6) {
-			return x.term(1, bound)
-		}
-		if x.chance(8) && len(bound) > 0 {
-			// a function application in the head; half of them aggregating functions, which bounds checking
-			// treats specially in heads, at one to three arguments (function arity is not checked in heads)
-			if x.chance(50) {
-				r := reducers[x.n(0, len(reducers)-1)]
-				parts := make([]string, x.n(1, 3))
-				for j := range parts {
-					parts[j] = headVar()
-				}
-				return r.name + "(" + strings.Join(parts, ", ") + ")"
-			}
-			return x.fnApp(1, func(int) string { return headVar() })
-		}
-		return headVar()
-	})
-	if p.temporal && (!x.hot || x.chance(75)) || x.bad(3) {
-		switch {
-		case x.hot && x.chance(40):
-			head += x.annotation()
-		case len(tvars) >= 2 && x.chance(60):
-			head += "@[" + tvars[len(tvars)-2] + ", " + tvars[len(tvars)-1] + "]"
-		case len(tvars) >= 1 && x.chance(60):
-			head += "@[" + tvars[0] + "]"
-		default:
-			head += x.factAnnotation()
-		}
-	}
-	arrow := " :- "
-	if x.chance(4) {
-		arrow = " ⟸ "
-	}
-	s := head + arrow + strings.Join(body, ", ")
-	if x.chance(3) { // a trailing comma is legal
-		s += ","
-	}
-	if len(transforms) == 0 {
-		return endClause(s)
-	}
-	for _, tr := range transforms {
-		s += "\n  |> " + tr
-	}
-	return endClause(s)
 }
 
 func (x g) preds() []pred {
 	var ps []pred
 	ne, ni := x.n(1, 3), x.n(1, 3)
-	// typing of the case: 0 no bounds, 1 one type for every column, 2 a type per column of the extensional predicates
+	// typing of the case: 0 no bounds, 1 one type for every column, 2 a type per column out of a small pool (so that
+	// columns of different predicates can be joined)
 	typing := x.n(0, 2)
-	var uni *ty
-	if typing == 1 {
-		uni = x.genTy(2)
+	var pool []*ty
+	np := 1
+	if typing != 1 {
+		np = x.n(3, 6)
 	}
-	cols := func(arity int, idb bool) []*ty {
-		switch {
-		case typing == 0:
-			return nil
-		case typing == 1:
-			c := make([]*ty, arity)
-			for i := range c {
-				c[i] = uni
-			}
-			return c
-		case idb:
-			return make([]*ty, arity) // /any
-		default:
-			c := make([]*ty, arity)
-			for i := range c {
-				c[i] = x.genTy(2)
-			}
-			return c
+	for i := 0; i < np; i++ {
+		t := x.genTy(2)
+		if t.kind == "base" && x.chance(35) {
+			t = x.genTy(2) // the columns share the few types of the pool: some more of the structured ones
 		}
+		if (t.kind == "list" || t.kind == "pair" || t.kind == "option") && t.args[0].kind == "tagged" && x.chance(60) {
+			t = t.args[0] // a tagged union has members the checker accepts only as a column type of its own
+		}
+		pool = append(pool, t)
+	}
+	if typing == 0 {
+		// no bounds will be printed: the pool is for the undeclared predicates
+		for i := range pool {
+			if !robust(pool[i]) {
+				pool[i] = bt(x.pick([]string{"/number", "/string", "/name", "/number", "/float64", "/any"}))
+			}
+		}
+	}
+	colType := func(declared bool) *ty {
+		i, j := x.n(0, len(pool)-1), x.n(0, len(pool)-1)
+		if j < i {
+			i = j // the first types of the pool are the common ones
+		}
+		t := pool[i]
+		if !declared && !robust(t) {
+			// an undeclared predicate: a type that is inferred from facts as it is
+			var ok []*ty
+			for _, c := range pool {
+				if robust(c) {
+					ok = append(ok, c)
+				}
+			}
+			if len(ok) > 0 {
+				return ok[x.n(0, len(ok)-1)]
+			}
+			return bt(x.pick([]string{"/number", "/string", "/name", "/number"}))
+		}
+		return t
+	}
+	cols := func(p *pred) {
+		p.synthetic = p.declared && x.n(0, 999) >= 955
+		p.cols = make([]*ty, p.arity)
+		p.bounds = p.declared && typing != 0 && (x.chance(75) || p.arity == 0)
+		if p.declared && p.arity == 0 && !x.hot {
+			p.bounds = true // a declared predicate without arguments needs its (empty) bound
+		}
+		for i := range p.cols {
+			switch {
+			case p.byDecl() && !p.bounds:
+				p.cols[i] = tyAny // a declaration without bounds is desugared to /any
+			case p.idb && !p.temporal && x.chance(15):
+				// results of functions and aggregations live here
+				p.cols[i] = bt(x.pick([]string{"/number", "/string", "/number", "/float64"}))
+			case p.byDecl() && !p.idb && x.chance(20):
+				p.cols[i] = x.genTy(2) // a type of its own
+			default:
+				p.cols[i] = colType(p.byDecl())
+			}
+		}
+		if p.bounds && p.arity > 0 && x.chance(12) { // a second alternative
+			p.alt = make([]*ty, p.arity)
+			for i := range p.alt {
+				p.alt[i] = p.cols[i]
+				if x.hot || x.chance(20) {
+					p.alt[i] = x.genTy(1)
+				}
+			}
+		}
+	}
+	modeOf := func(p *pred, allowed string) {
+		b := make([]byte, p.arity)
+		for i := range b {
+			b[i] = allowed[x.n(0, len(allowed)-1)]
+		}
+		p.mode = string(b)
 	}
 	for i := 0; i < ne; i++ {
 		p := pred{name: fmt.Sprintf("e%d", i), arity: x.n(1, 3), declared: x.chance(70), temporal: x.chance(15)}
 		if x.chance(6) {
 			p.arity = 0
 		}
-		if p.declared && x.chance(75) {
-			p.cols = cols(p.arity, false)
-		}
-		if p.declared && p.arity == 0 && !x.hot {
-			p.cols = []*ty{} // a declared predicate without arguments needs its (empty) bound
+		cols(&p)
+		if p.declared {
+			switch k := x.n(0, 99); {
+			case k < 5 && p.arity > 0 && !p.temporal:
+				p.external = true
+				modeOf(&p, "+--")
+			case k < 16:
+				modeOf(&p, "+-??")
+			}
+			if p.arity == 1 && x.chance(5) {
+				p.reflects = x.pick([]string{"/foo", "/foo/bar", "/a"})
+			}
 		}
 		ps = append(ps, p)
 	}
+	nidb := 0
 	for i := 0; i < ni; i++ {
-		p := pred{name: fmt.Sprintf("i%d", i), arity: x.n(1, 3), idb: true, declared: x.chance(45), temporal: x.chance(15)}
-		if p.declared && x.chance(60) {
-			p.cols = cols(p.arity, true)
-		}
+		p := pred{name: fmt.Sprintf("i%d", i), arity: x.n(1, 3), idb: true, declared: x.chance(45), temporal: x.chance(15), index: nidb}
+		nidb++
+		cols(&p)
 		if p.declared && !p.temporal && x.chance(8) {
 			p.deferred = true
+			modeOf(&p, "++-?")
+		} else if p.declared && x.chance(11) {
+			modeOf(&p, "+-??")
+		}
+		if p.declared && p.arity == 1 && x.chance(5) {
+			p.reflects = x.pick([]string{"/foo", "/foo/bar", "/a"})
 		}
 		ps = append(ps, p)
+	}
+	// A column of an intensional predicate needs a source: a constant or a term of the type, or a column of that type
+	// of an extensional predicate.
+	for i := range ps {
+		if !ps[i].idb || !ps[i].byDecl() || !ps[i].bounds || x.hot {
+			continue
+		}
+		for j, c := range ps[i].cols {
+			has := (&ruleGen{x: x}).constructible(c, nil, false)
+			for _, q := range ps {
+				for _, qc := range q.cols {
+					has = has || !q.idb && tyEq(qc, c)
+				}
+			}
+			if !has && x.chance(80) {
+				ps[i].cols[j] = bt(x.pick([]string{"/number", "/string", "/name", "/float64", "/any"}))
+				for _, q := range ps {
+					if !q.idb && len(q.cols) > 0 && x.chance(60) {
+						ps[i].cols[j] = q.cols[x.n(0, len(q.cols)-1)]
+					}
+				}
+				if ps[i].alt != nil {
+					ps[i].alt[j] = ps[i].cols[j]
+				}
+			}
+		}
+	}
+	// reflects(/foo): an atom with a bound argument is rewritten to :match_prefix(X, /foo), so the column holds names
+	for i := range ps {
+		if ps[i].reflects != "" && !x.hot && !ps[i].cols[0].isBase("/any") {
+			ps[i].cols[0] = bt(x.pick([]string{"/name", "/foo", "/foo/bar"}))
+			if ps[i].reflects == "/a" {
+				ps[i].cols[0] = tyName
+			}
+			ps[i].alt = nil
+		}
+	}
+	// Rules may use the intensional predicates before them and themselves, and the later ones listed in fwd (mutual
+	// recursion); the analysis rejects mutual recursion through temporal predicates.
+	anyTemporal := false
+	for _, p := range ps {
+		anyTemporal = anyTemporal || p.idb && p.temporal
+	}
+	for i := range ps {
+		if !ps[i].idb {
+			continue
+		}
+		for j := range ps {
+			if ps[j].idb && ps[j].index > ps[i].index && (x.hot || !anyTemporal && x.chance(30)) {
+				ps[i].fwd = append(ps[i].fwd, ps[j].index)
+			}
+		}
+	}
+	for i := range ps {
+		if !ps[i].idb {
+			continue
+		}
+		top := ps[i].index
+		for changed := true; changed; {
+			changed = false
+			for _, q := range ps {
+				if q.idb && q.index <= top {
+					for _, f := range q.fwd {
+						if f > top {
+							top, changed = f, true
+						}
+					}
+				}
+			}
+		}
+		ps[i].top = top
 	}
 	if x.chance(6) {
 		ps[x.n(0, len(ps)-1)].name = x.pick([]string{"foo.bar", "a:b", "p_1", "m"})
@@ -893,9 +1085,47 @@ reach(X, Y)@[S, E] :- link(X, Y)@[S, E].
 reach(X, Z)@[S, E] :- reach(X, Y)@[S, E], link(Y, Z)@[S, E].
 recent(X) :- <-[0d, 200d] link(X, _).
 always(X) :- [-[0d, 1d] link(X, _)@[now].
-n(0)@[2024-01-01]. n(Y)@[2024-01-01] :- n(X)@[2024-01-01], Y = fn:plus(X, 1).
+` + x.pick([]string{"", "Decl n(X) temporal bound [/number].\n", "Decl n(X) temporal bound [/number].\n", "Decl n(X) temporal bound [/number].\n"}) + `n(0)@[2024-01-01]. n(Y)@[2024-01-01] :- n(X)@[2024-01-01], Y = fn:plus(X, 1).
 `
 	}
+}
+
+// mergeDecl: the merge predicate "m" named by merge() descriptors, for a merged column of type t (nil: unknown).
+func (x g) mergeDecl(t *ty) []string {
+	decl := `Decl m(A, B, C)
+  descr [mode("+", "+", "-"), deferred()]`
+	var rules []string
+	switch {
+	case t != nil && t.isBase("/number"):
+		// the arithmetic needs /number arguments: without bounds the inputs of a deferred predicate are /any
+		tt := x.tyText(t)
+		decl += "\n  bound [" + tt + ", " + tt + ", " + tt + "]"
+		rules = []string{
+			"m(A, B, C) :- A < B, C = A.\nm(A, B, C) :- B <= A, C = B.",
+			"m(A, B, C) :- C = fn:plus(A, B).",
+			"m(A, B, C) :- C = A.",
+			"m(A, B, C) :- A < B, C = B.\nm(A, B, C) :- B <= A, C = A.",
+		}
+	case t != nil && t.kind == "list" && x.chance(60):
+		tt := x.tyText(t)
+		decl += "\n  bound [" + tt + ", " + tt + ", " + tt + "]"
+		rules = []string{
+			"m(A, B, C) :- fn:list:len(A) < fn:list:len(B), C = A.\nm(A, B, C) :- fn:list:len(B) <= fn:list:len(A), C = B.",
+			"m(A, B, C) :- C = A.",
+			"m(A, B, C) :- :match_nil(A), C = B.\nm(A, B, C) :- :match_cons(A, H, T), C = A.",
+		}
+	default:
+		rules = []string{
+			"m(A, B, C) :- A < B, C = A.\nm(A, B, C) :- B <= A, C = B.",
+			"m(A, B, C) :- C = A.",
+			"m(A, B, C) :- C = B.",
+			"m(A, B, C) :- C = A, A != B.\nm(A, B, C) :- C = A, A = B.",
+		}
+		if x.hot {
+			rules = append(rules, "m(A, B, C) :- C = fn:plus(A, B).", "m(A, B, C) :- C = fn:list:append(A, B).")
+		}
+	}
+	return []string{decl + ".", x.pick(rules)}
 }
 
 // unit builds a source unit.
@@ -913,10 +1143,16 @@ func (x g) unit() string {
 	ps := x.preds()
 	var items []string
 	needMerge := false
+	var mergeTy *ty
 	for _, p := range ps {
 		if p.declared {
 			d := x.decl(p, ps)
-			needMerge = needMerge || strings.Contains(d, `merge([`) && strings.Contains(d, `"m"`)
+			if strings.Contains(d, `merge([`) && strings.Contains(d, `"m"`) {
+				needMerge = true
+				if p.arity > 0 && p.bounds {
+					mergeTy = p.cols[p.arity-1]
+				}
+			}
 			items = append(items, d)
 			if x.bad(3) {
 				items = append(items, x.decl(p, ps)) // duplicate declaration
@@ -924,11 +1160,20 @@ func (x g) unit() string {
 		}
 		if !p.idb || x.chance(20) {
 			nf := x.n(0, 4)
-			if !p.declared && !p.idb && !x.hot {
+			if !p.byDecl() && !p.idb && !x.hot {
 				nf = x.n(1, 4) // an undeclared extensional predicate is known only through its facts
 			}
-			if strings.Contains(strings.Join(items, ""), "external()") && !x.hot {
+			if p.external && !x.hot {
 				nf = 0
+			}
+			if !p.canFact() && !x.hot {
+				nf = 0 // no constant passes the bounds check for some column type: the predicate has rules at most
+			} else if nf == 0 && p.byDecl() && p.bounds && !x.hot {
+				for _, c := range p.cols {
+					if c.kind == "struct" || c.kind == "tagged" || c.kind == "union" || c.kind == "map" {
+						nf = x.n(1, 3) // members of the structured types, for the conformance check
+					}
+				}
 			}
 			for i := 0; i < nf; i++ {
 				items = append(items, x.fact(p))
@@ -941,14 +1186,13 @@ func (x g) unit() string {
 			}
 		}
 	}
+	for _, p := range ps {
+		if p.name == "m" && !x.hot {
+			needMerge = false // the name is taken
+		}
+	}
 	if needMerge {
-		items = append(items, `Decl m(A, B, C)
-  descr [mode("+", "+", "-"), deferred()].`, x.pick([]string{
-			"m(A, B, C) :- A < B, C = A.\nm(A, B, C) :- B <= A, C = B.",
-			"m(A, B, C) :- C = fn:plus(A, B).",
-			"m(A, B, C) :- C = A.",
-			"m(A, B, C) :- C = fn:list:append(A, B).",
-		}))
+		items = append(items, x.mergeDecl(mergeTy)...)
 	}
 	if x.chance(10) {
 		items = append(items, "# a comment "+x.pick([]string{"", "Decl", "\"", "⟸"}))
